@@ -281,6 +281,8 @@ def run_check(pid: str, tier: str, repo_root=None, seed=0):
             replay_paths.append(path)
             lines.append(f"VIOLATION property={pid} replay={path}")
             viol.append((None, None))
+    undecided = list(dict.fromkeys(undecided))        # one line per function / obligation (shards repeat them)
+    errors = list(dict.fromkeys(errors))
     for (n, why) in undecided:
         lines.append(f"UNDECIDED property={pid} {n}: {why}")
     for (n, why) in errors:
